@@ -129,7 +129,7 @@ func runC20(c *Ctx) {
 		}
 		rel := filepath.Join("testdata", f.Level, fmt.Sprintf("v1.%d", f.Minor), dir, f.Name+".yaml")
 		expected[rel] = true
-		data, err := os.ReadFile(filepath.Join("/repo/test", rel))
+		data, err := os.ReadFile(filepath.Join(repoDir()+"/test", rel))
 		if err != nil {
 			c.Violate(Finding{Desc: "published fixture file missing: " + rel, Key: "file-missing", Input: in})
 			continue
@@ -147,9 +147,9 @@ func runC20(c *Ctx) {
 		}
 		c.Eval(1)
 	}
-	filepath.Walk("/repo/test/testdata", func(path string, info os.FileInfo, err error) error {
+	filepath.Walk(repoDir()+"/test/testdata", func(path string, info os.FileInfo, err error) error {
 		if err == nil && !info.IsDir() {
-			rel, _ := filepath.Rel("/repo/test", path)
+			rel, _ := filepath.Rel(repoDir()+"/test", path)
 			if !expected[rel] {
 				c.Violate(Finding{Desc: "serialized fixture without a generator: " + rel, Key: "file-extra", Input: rel})
 			}
@@ -398,4 +398,12 @@ func writeIfChanged(path, content string) {
 		return
 	}
 	os.WriteFile(path, []byte(content), 0o644)
+}
+
+// repoDir: the tree under verification (/repo unless VERIF_REPO points at a scratch copy)
+func repoDir() string {
+	if d := os.Getenv("VERIF_REPO"); d != "" {
+		return d
+	}
+	return "/repo"
 }
